@@ -4,6 +4,7 @@ CONSTANTS
   Hi <- HiDef
   Stride = 72
   MaxRules = 0
+  Wide = FALSE
   Late = 0
 INVARIANTS YearSound MonthSound MonthYearSound WeekSound HolidaySound
 CHECK_DEADLOCK FALSE
